@@ -244,15 +244,15 @@ impl Prop for C15 {
             .prop_flat_map(|(g, mb)| {
                 let al = alpha(g, mb);
                 (
-                    proptest::collection::vec(select(al), 0..=8).prop_map(|v| v.concat()),
+                    prop_oneof![16 => proptest::collection::vec(select(al), 0..=8).prop_map(|v| v.concat()), 1 => proptest::collection::vec(select(al), 9..=30).prop_map(|v| v.concat())],
                     1u8..16,
                     tables(al),
                     any::<bool>(),
                     prop_oneof![2 => Just(vec![]), 1 => proptest::collection::vec(select(al).prop_map(str::to_string), 1..=3)],
                     prop_oneof![2 => Just(vec![]), 1 => proptest::collection::vec(select(al).prop_map(str::to_string), 1..=3)],
-                    proptest::collection::vec(0usize..8, 0..=4),
+                    proptest::collection::vec(prop_oneof![8 => 0usize..8, 1 => 8usize..30], 0..=4),
                     any::<u64>(),
-                    1usize..=6,
+                    prop_oneof![16 => 1usize..=6, 1 => 7usize..=14],
                     prop_oneof![
                         5 => Just(None),
                         1 => proptest::collection::vec(proptest::collection::vec(select(al), 1..=5).prop_map(|v| v.concat()), 1..=4)
